@@ -47,6 +47,9 @@ def match_vk(name, trait):
     return name in ("value", "kids")
 
 
+LAZY = {}     # (id(object), trait name) -> the content its _name_default method returns (set by TouchItems)
+
+
 class N(HasTraits):
     value = Int()
     f = Instance(HasTraits, tag=True)
@@ -55,6 +58,16 @@ class N(HasTraits):
     m = Dict(Str, Instance(HasTraits))
     s = Set(Instance(HasTraits))
     groups = Dict(Str, List(Instance(HasTraits)))
+
+    # container defaults computed by _name_default methods: empty unless the case declares content
+    def _kids_default(self):
+        return list(LAZY.get((id(self), "kids"), []))
+
+    def _m_default(self):
+        return dict(LAZY.get((id(self), "m"), {}))
+
+    def _s_default(self):
+        return set(LAZY.get((id(self), "s"), ()))
 
 
 class NFalsy(N):
@@ -273,6 +286,27 @@ class World:
             try:
                 getattr(self.pool[o], FN[f])
             finally:
+                cur = self.pool[o].__dict__.get(FN[f])
+                if self.pending is not None and cur is not None and id(cur) not in self.atom:
+                    self.register(cur)
+                self.pending = None
+        elif k == "TouchItems":     # first read of a container trait whose default has content
+            o, f, items = op[1:4]
+            if FN[f] in self.pool[o].__dict__:
+                return
+            if f == 3:
+                LAZY[(id(self.pool[o]), "kids")] = [self.pool[a] for a in items]
+            elif f == 4:
+                LAZY[(id(self.pool[o]), "m")] = {key: self.pool[a] for key, a in items}
+            else:
+                LAZY[(id(self.pool[o]), "s")] = {self.pool[a] for a in items}
+            self.pending = self.next
+            self.pending_field = f + 3
+            self.next += 1
+            try:
+                getattr(self.pool[o], FN[f])
+            finally:
+                LAZY.pop((id(self.pool[o]), FN[f]), None)
                 cur = self.pool[o].__dict__.get(FN[f])
                 if self.pending is not None and cur is not None and id(cur) not in self.atom:
                     self.register(cur)
